@@ -3,7 +3,7 @@ import LlirModel.Drv.Core2Ops
 /-! Line-protocol descriptors of M-Core-3 functions.
     `core3.print <ret ty> <hexname> <params> <blocks>`
     ident: `N<hex>` | `I<num>`;  params: `-` or `<ty>~<ident>` joined by `|`;  blocks joined by `/`, a block is `<ident>^<inst>^...^<term>`;
-    inst: `<ident or _>:<row>:<args>` with args joined by `!` (or `-`): `T<ty>` | `P<ty>=<operand>` | `V<operand>` | `L<ident>` | `R` | `R<ty>=<operand>` | `H<operand>~<ident>&...` (phi incoming list) | `K<n>,<n>…` (index path) | `A` / `A<n>` (no / an alignment) | `F<i>,<i>…` (flag keywords by position in the row's list) | `G<ty>=<operand>&…` (typed index list);
+    inst: `<ident or _>:<row>:<args>` (switch, invoke, landingpad: `…:<args>:<continuation lines>`, see parseExtD) with args joined by `!` (or `-`): `T<ty>` | `P<ty>=<operand>` | `V<operand>` | `L<ident>` | `R` | `R<ty>=<operand>` | `H<operand>~<ident>&...` (phi incoming list) | `K<n>,<n>…` (index path) | `A` / `A<n>` (no / an alignment) | `F<i>,<i>…` (flag keywords by position in the row's list) | `G<ty>=<operand>&…` (typed index list);
     operand: `%<ident>` | `#<const descriptor>` | `@<hexname>` (a global variable or function of the module: M-Whole only) -/
 namespace Llir.Drv
 open Llir Llir.Types Llir.Core2 Llir.Core3
@@ -49,14 +49,48 @@ def parseArgD (s : String) : Option Arg :=
       | _ => none) |>.map .phis
   | _ => none
 
+def parseCaseD (s : String) : Option (Ty × Const × Core3.Ident) :=
+  match s.splitOn "~" with
+  | [tv, b] =>
+    (match parseTyOperand tv, parseIdentD b with
+     | some (t, .const c), some b => some (t, c, b)
+     | _, _ => none)
+  | _ => none
+
+def parseClauseD (s : String) : Option (Bool × Ty × Operand) :=
+  match s.toList with
+  | 'c' :: r => (parseTyOperand (String.ofList r)).map fun p => (false, p.1, p.2)
+  | 'f' :: r => (parseTyOperand (String.ofList r)).map fun p => (true, p.1, p.2)
+  | _ => none
+
+/-- the continuation lines: `S-` / `S<ty>=#<const>~<ident>&…` (cases of a switch), `D<ident>~<ident>` (normal and unwind destination of an invoke),
+    `C<0|1>` / `C<0|1>&c<ty>=<operand>&f<ty>=<operand>…` (cleanup flag and catch / filter clauses of a landingpad) -/
+def parseExtD (s : String) : Option Ext :=
+  match s.toList with
+  | ['S', '-'] => some (.cases [])
+  | 'S' :: r => ((String.ofList r).splitOn "&").mapM parseCaseD |>.map .cases
+  | 'D' :: r =>
+    (match (String.ofList r).splitOn "~" with
+     | [n, u] => (match parseIdentD n, parseIdentD u with | some n, some u => some (.dests n u) | _, _ => none)
+     | _ => none)
+  | 'C' :: c :: r =>
+    let cl := c == '1'
+    (match r with
+     | [] => some (.clauses cl [])
+     | '&' :: r' => ((String.ofList r').splitOn "&").mapM parseClauseD |>.map (.clauses cl)
+     | _ => none)
+  | _ => none
+
 def parseInstD (s : String) : Option Inst :=
-  match s.splitOn ":" with
-  | [r, k, as] =>
+  let go (r k as : String) (x : Option Ext) : Option Inst :=
     let res := if r == "_" then some none else (parseIdentD r).map some
     let args := if as == "-" then some [] else (as.splitOn "!").mapM parseArgD
-    match res, k.toNat?, args with
-    | some res, some k, some args => some ⟨res, k, args⟩
-    | _, _, _ => none
+    match res, k.toNat?, args, x with
+    | some res, some k, some args, some x => some ⟨res, k, args, x⟩
+    | _, _, _, _ => none
+  match s.splitOn ":" with
+  | [r, k, as] => go r k as (some .none)
+  | [r, k, as, x] => go r k as (parseExtD x)
   | _ => none
 
 def parseBlockD (s : String) : Option Block :=
@@ -128,7 +162,9 @@ def hasInfix (p : Bytes) : Bytes → Bool
 /-- texts on which the model is not compared: a `call void` with a result name (`%x = call void @f()`: the real parser keeps the name in its table
     and prints no result; M-Core-3 has no nameless-by-type results) -/
 def textRisky (ls : List Bytes) : Bool :=
-  ls.any (hasInfix [61, 32, 99, 97, 108, 108, 32, 118, 111, 105, 100, 32])
+  ls.any (hasInfix [61, 32, 99, 97, 108, 108, 32, 118, 111, 105, 100, 32]) ||
+  -- a case of a switch whose value is a global (`i8* @g, label %b`: a constant to the real parser; the cases of the fragment are literal constants)
+  ls.any (fun l => (TyParse.stripPrefix [9, 9] l).isSome && l.contains 64 && hasInfix sCommaLabel l)
 
 def core3Ops (op : String) (a : List String) : Option String :=
   match op, a with
